@@ -1260,7 +1260,7 @@ class Corr:
     def __pow__(self, y):
         if isinstance(y, (Obs, int, float, CObs)):
             newcontent = [None if _check_for_none(self, item) else item**y for item in self.content]
-            return Corr(newcontent, prange=self.prange)
+            return Corr(_undefine_nan(self, newcontent), prange=self.prange)
         else:
             raise TypeError('Type of exponent not supported')
 
@@ -1274,7 +1274,7 @@ class Corr:
 
     def log(self):
         newcontent = [None if _check_for_none(self, item) else np.log(item) for item in self.content]
-        return Corr(newcontent, prange=self.prange)
+        return Corr(_undefine_nan(self, newcontent), prange=self.prange)
 
     def exp(self):
         newcontent = [None if _check_for_none(self, item) else np.exp(item) for item in self.content]
@@ -1455,6 +1455,20 @@ def _sort_vectors(vec_set_in, ts):
 def _check_for_none(corr, entry):
     """Checks if entry for correlator corr is None"""
     return len(list(filter(None, np.asarray(entry).flatten()))) < corr.N ** 2
+
+
+def _undefine_nan(corr, newcontent):
+    """Sets the timeslices of newcontent whose entries are not a number to None"""
+    for t in range(len(newcontent)):
+        if _check_for_none(corr, newcontent[t]):
+            continue
+        tmp_sum = np.sum(newcontent[t])
+        if hasattr(tmp_sum, "value"):
+            if np.isnan(tmp_sum.value):
+                newcontent[t] = None
+    if all([item is None for item in newcontent]):
+        raise ValueError('Operation returns undefined correlator')
+    return newcontent
 
 
 def _GEVP_solver(Gt, G0, method='eigh', chol_inv=None):
